@@ -285,13 +285,32 @@ class World:
                 m.bonds[B(x, y)] = {"reaction": rng.choice(ROLES)} if m.is_reaction and rng.random() < 0.5 else {}
                 deg[x] += 1
                 deg[y] += 1
-        if m.is_stereo:
+        style = op.get("style", "atom")
+        if m.is_stereo and style in ("atom", "mixed"):
             nb = m.neighbours()
             for a in ids[::2]:
                 if len(nb[a]) in (3, 4):
                     lig = sorted(nb[a]) + [None] * (4 - len(nb[a]))
                     rng.shuffle(lig)
                     m.astereo[a] = ("Tetrahedral", (a, *lig), rng.choice((1, -1)))
+        if m.is_stereo and style in ("bond", "mixed"):
+            # stereo that sits on bonds only (axes, double bonds)
+            nb = m.neighbours()
+            busy = set()
+            for bd in sorted(m.bonds, key=lambda b: tuple(sorted(b)))[::3]:
+                x, y = sorted(bd)
+                if m.bonds[bd].get("reaction") or x in busy or y in busy or x in m.astereo or y in m.astereo:
+                    continue
+                lx, ly = sorted(nb[x] - {y}), sorted(nb[y] - {x})
+                if not (1 <= len(lx) <= 2 and 1 <= len(ly) <= 2):
+                    continue
+                lx += [None] * (2 - len(lx))
+                ly += [None] * (2 - len(ly))
+                rng.shuffle(lx)
+                rng.shuffle(ly)
+                cls_ = rng.choice(("AtropBond", "PlanarBond"))
+                m.bstereo[bd] = (cls_, (lx[0], lx[1], x, y, ly[0], ly[1]), rng.choice((1, -1)) if cls_ == "AtropBond" else 0)
+                busy |= {x, y}
         real = None
         if self.real_enabled:
             R = self.R
@@ -707,6 +726,14 @@ class World:
                     txt = json.dumps(obj, separators=(",", ":"), ensure_ascii=False)
             t.data["text"] = txt
             self.coherent(op["src"], {"C09"}, "serialize", what="source")
+            m0 = sl.model
+            if m0.atoms and m0.sane() and m0.fully_specified() and m0.buildable():
+                # what the object itself answered at the moment it was saved
+                try:
+                    t.data["hash_at_save"] = R.guarded(hash, sl.real)
+                except BaseException as e:  # noqa: BLE001
+                    if isinstance(e, (KeyboardInterrupt, SystemExit)):
+                        raise
         self.slots[dst] = t
 
     def op_deserialize(self, op):
@@ -737,7 +764,21 @@ class World:
         if self.real_enabled:
             if self.coherent(dst, {"C15"}, "deserialize", what="result") and full.sane():
                 from . import probes
+                n0 = len(self.violations) + len(self.known_hits)
                 probes.check_roundtrip_equal(self, dst, full)
+                if "hash_at_save" in t.data and n0 == len(self.violations) + len(self.known_hits):
+                    try:
+                        h = R.guarded(hash, real)
+                    except BaseException as e:  # noqa: BLE001
+                        if isinstance(e, (KeyboardInterrupt, SystemExit)):
+                            raise
+                        h = None
+                    if h is not None and h != t.data["hash_at_save"]:
+                        # the saved object and the restored one are equal graphs
+                        self.report({"C15", "C03"}, "deserialize|hash-differs-from-the-saved-object|" + model.CLASSNAME[m.kind],
+                                    f"{t.data['hash_at_save']} {h}")
+                    else:
+                        self.stats["roundtrip_hash_vs_saved_object_checked"] += 1
 
 
 def project_json(m: RefGraph) -> RefGraph:
